@@ -15,8 +15,12 @@
 (*   by SP; a name containing control bytes never appears; no other field appears     *)
 (*   (except Host / Content-Length / Transfer-Encoding written by the proxy).         *)
 (*   A request whose method or target is not valid must not reach the backend.        *)
-(*   Names that are merely not tokens (SP, "(", ":") are gray: C24 decides whether    *)
-(*   they are accepted; here they may be forwarded verbatim or dropped.               *)
+(*   A request with a field name that is not a token (control bytes, SP, "(", ":") is *)
+(*   refused by the front end: HTTP/1 answers 4xx (RFC 7230 3.2.4), HTTP/2 resets the *)
+(*   stream or answers 4xx; nothing reaches the backend.                              *)
+(*   The captured bytes are read twice: by Go's parser, and strictly with bare CR and *)
+(*   bare LF taken as line ends - no field may appear in either reading that the      *)
+(*   client did not send.                                                             *)
 (* Layer M: what bfe_http.ReadRequest / bfe_http2 / Request.write / WriteSubset do.   *)
 EXTENDS Integers, Sequences, FiniteSets, TLC
 
@@ -27,7 +31,7 @@ Methods == {"GET", "POST", "lower", "nul", "sp"}
 Targets == {"plain", "query", "pct", "sp", "nul", "cr"}
 Bodies  == {"none", "cl", "chunked", "smuggle"}
 NameCs  == {"tok", "lc", "cr", "nul", "del", "sp", "paren", "colon"}
-ValCs   == {"plain", "sp", "ht", "pad", "empty", "cr", "nul", "crlf", "lf"}
+ValCs   == {"plain", "sp", "ht", "pad", "empty", "cr", "crinj", "nul", "crlf", "lf"}
 
 VARIABLES proto, m, t, b, n1, v1, n2, v2, done
 vars == <<proto, m, t, b, n1, v1, n2, v2, done>>
@@ -36,7 +40,7 @@ D(x, def) == IF x = def THEN 0 ELSE 1
 
 \* shapes that cannot be sent (or are by definition something else) on a frontend
 NameOK(p, n) == IF p = "h1" THEN n # "colon" ELSE n # "lc"
-ValOK(p, v)  == p = "h1" => v \notin {"crlf", "lf"}       \* on HTTP/1 these ARE two lines
+ValOK(p, v)  == p = "h1" => v # "crlf"                  \* on HTTP/1 this IS two lines
 Init ==
     /\ proto \in Protos
     /\ m \in Methods /\ (proto = "h1" => m # "sp")
@@ -69,16 +73,18 @@ LowName(nc, k) == (CASE nc \in {"tok", "lc"} -> "x-f" [] nc = "sp" -> "x<SP>f" [
 ValStr(vc, k) == CASE vc = "plain" -> "v" \o K(k) [] vc = "sp" -> "a<SP>b" \o K(k) [] vc = "ht" -> "a<HT>b" \o K(k)
                    [] vc = "pad" -> "<SP>v" \o K(k) \o "<SP><HT>" [] vc = "empty" -> ""
                    [] vc = "cr" -> "a<CR>b" \o K(k) [] vc = "nul" -> "a<NUL>b" \o K(k)
+                   [] vc = "crinj" -> "a<CR>X-Inj:<SP>" \o K(k)
                    [] vc = "crlf" -> "a<CR><LF>X-Inj:<SP>" \o K(k) [] OTHER -> "a<LF>X-Inj:<SP>" \o K(k)
 \* the value a forwarded field may carry (control bytes -> SP, OWS trimmed)
 ValFwd(vc, k) == CASE vc = "plain" -> "v" \o K(k) [] vc = "sp" -> "a b" \o K(k) [] vc = "ht" -> "a<HT>b" \o K(k)
                    [] vc = "pad" -> "v" \o K(k) [] vc = "empty" -> ""
                    [] vc \in {"cr", "nul"} -> "a b" \o K(k)
+                   [] vc = "crinj" -> "a X-Inj: " \o K(k)
                    [] vc = "crlf" -> "a  X-Inj: " \o K(k) [] OTHER -> "a X-Inj: " \o K(k)
 
 NameCtl(nc)  == nc \in {"cr", "nul", "del"}
 NameGray(nc) == nc \in {"sp", "paren", "colon"}
-ValCtl(vc)   == vc \in {"cr", "nul", "crlf", "lf"}
+ValCtl(vc)   == vc \in {"cr", "crinj", "nul", "crlf", "lf"}
 LineInvalid  == m \in {"nul", "sp"} \/ t \in {"sp", "nul", "cr"}
 
 (* ------------------------------ Layer P --------------------------------- *)
@@ -86,28 +92,42 @@ LineInvalid  == m \in {"nul", "sp"} \/ t \in {"sp", "nul", "cr"}
 FieldExp(nc, vc, k) ==
     IF NameCtl(nc) THEN [n |-> "", vals |-> {}, must |-> FALSE, gray |-> FALSE]
     ELSE IF NameGray(nc) THEN [n |-> LowName(nc, k), vals |-> {}, must |-> FALSE, gray |-> TRUE]
-    ELSE [n |-> LowName(nc, k), vals |-> {ValFwd(vc, k)}, must |-> ~ValCtl(vc), gray |-> FALSE]
-ExpP == [mustReject |-> LineInvalid,
+    ELSE [n |-> LowName(nc, k), vals |-> {ValFwd(vc, k)} \cup (IF vc = "lf" THEN {"a"} ELSE {}),
+          must |-> ~ValCtl(vc), gray |-> FALSE]
+\* HTTP/1 front end (RFC 7230 3.2.4, 3.1.1; C24): a field name that is not a token, or a target with
+\* control bytes, is answered 4xx and nothing reaches the backend.  HTTP/2: such a request is a
+\* malformed stream (reset or 4xx), nothing reaches the backend either.
+NameBad(nc) == NameCtl(nc) \/ NameGray(nc)
+FrontReject == \/ NameBad(n1) \/ NameBad(n2) \/ t \in {"nul", "cr"}
+               \/ proto = "h2" /\ (ValCtl(v1) \/ ValCtl(v2))
+\* a bare LF inside a value on HTTP/1 may be read as a line end (RFC 7230 3.5): the text after it may
+\* then show up as a field of its own
+LfSplit == proto = "h1" /\ (v1 = "lf" \/ v2 = "lf")
+ExpP == [mustReject |-> LineInvalid \/ FrontReject, frontReject |-> FrontReject,
+         extra |-> IF LfSplit THEN {"x-inj"} ELSE {},
          fields |-> <<FieldExp(n1, v1, 1), FieldExp(n2, v2, 2)>>,
          own |-> {"host", "content-length", "transfer-encoding"}]
 
 \* a forwarding outcome: [rej |-> TRUE] or [rej |-> FALSE, fwd |-> set of forwarded [n, v]] (lower names)
 POK(out) ==
     IF out.rej THEN TRUE
-    ELSE /\ ~LineInvalid
+    ELSE /\ ~LineInvalid /\ ~FrontReject
          /\ \A k \in 1..2 : LET e == ExpP.fields[k] IN
                /\ e.must => \E f \in out.fwd : f.n = e.n /\ f.v \in e.vals
                /\ (~e.gray /\ e.n # "") => \A f \in out.fwd : f.n = e.n => f.v \in e.vals
-         /\ \A f \in out.fwd : \E k \in 1..2 : f.n = ExpP.fields[k].n /\ f.n # ""
+         /\ \A f \in out.fwd : f.n \in ExpP.extra \/ \E k \in 1..2 : f.n = ExpP.fields[k].n /\ f.n # ""
 
 (* ------------------------------ Layer M --------------------------------- *)
 RejectM ==
-    IF proto = "h1" THEN t \in {"nul", "cr"} \/ m = "nul"
+    IF proto = "h1" THEN t \in {"nul", "cr"} \/ m = "nul" \/ NameBad(n1) \/ NameBad(n2)
     ELSE \/ LineInvalid
          \/ \E x \in {n1, n2} : NameCtl(x) \/ NameGray(x)
          \/ \E x \in {v1, v2} : ValCtl(x)
 \* HTTP/1: non-token names are dropped when the header is written, control bytes in values become SP
-FwdOne(nc, vc, k) == IF NameCtl(nc) \/ NameGray(nc) THEN {} ELSE {[n |-> LowName(nc, k), v |-> ValFwd(vc, k)]}
+\* (a bare LF in an HTTP/1 value is taken as a line end by the reader: two well-formed fields result)
+FwdOne(nc, vc, k) == IF NameCtl(nc) \/ NameGray(nc) THEN {}
+                     ELSE IF vc = "lf" /\ proto = "h1" THEN {[n |-> LowName(nc, k), v |-> "a"], [n |-> "x-inj", v |-> K(k)]}
+                     ELSE {[n |-> LowName(nc, k), v |-> ValFwd(vc, k)]}
 OutM == [rej |-> RejectM, fwd |-> IF RejectM THEN {} ELSE FwdOne(n1, v1, 1) \cup FwdOne(n2, v2, 2)]
 
 Next == ~done /\ done' = TRUE /\ UNCHANGED <<proto, m, t, b, n1, v1, n2, v2>>
